@@ -202,7 +202,7 @@ pub fn run(env: &Env) -> i32 {
     }
     // random bodies with / without the using directive, random version
     let cfg = program::GenCfg { undecided: false, plant: 150, pragma_mode: 0, ..Default::default() };
-    tape_stream(env, &mut st, "random-bodies", env.tier.n(5000, 120_000), 1400, |tape, s| {
+    tape_stream(env, &mut st, "random-bodies", env.tier.n(20_000, 200_000), 1400, |tape, s| {
         let mut t = Tape::new(tape);
         let text = program::gen_program(&mut t, &cfg);
         s.sample(1, || json!({"text": text.chars().take(600).collect::<String>()}));
